@@ -1,7 +1,7 @@
 //! C07 — no source line is silently dropped; a bad line affects only itself.
 //!
-//! Space: all files of up to m lines over a 14-kind line alphabet (7 good,
-//! 7 bad) x line ending {LF, CRLF} x final newline {yes, no}, as base file and
+//! Space: all files of up to m lines over a 17-kind line alphabet (8 good,
+//! 9 bad) x line ending {LF, CRLF} x final newline {yes, no}, as base file and
 //! (one cut) with the tail in an included file.
 
 use crate::driver::*;
